@@ -260,14 +260,14 @@ def run(p, report, tier):
                 "array write NaN/-inf, whole rows, or use mapping-derived / accumulator indices", floor=25)
     report.rule("R1.4", "in every sequential selection loop the operand of the selection call depends, through a "
                 "loop-carried definition, on the picks of earlier iterations (otherwise earlier picks cannot be "
-                "excluded and an all-ties input returns duplicates)", floor=14)
+                "excluded and an all-ties input returns duplicates)", floor=12)
     report.rule("R1.4m", "the exclusion of earlier picks is by an explicit mechanism: (M1) a NaN/0/False store indexed by "
                 "the picks into the operand (or what it is computed from), also inside a project callee that receives "
                 "the picks; (M2) shrinking the pool by the pick (np.delete / pool mask); (M3, sampling only) zero "
-                "probability mass at distance-to-selected", floor=14)
+                "probability mass at distance-to-selected", floor=12)
     report.rule("R1.5", "the accumulator of picks that is used for masking is the value that flows to the returned "
                 "indices (a function that masks with one tie-break and lets the caller re-derive the picks is reported)",
-                floor=14)
+                floor=12)
     report.rule("R1.6", "index translation: positions selected over a pool that was shrunk by np.delete reach the "
                 "returned indices only through a translating subscript T[positions]", floor=2)
     report.rule("R1.7", "no local is read before it is bound on any feasible path (branch-correlated) of any "
